@@ -87,3 +87,21 @@ def mutate_version(rng, s):
             return s[:i] + c + s[i:]
         return s[:i] + s[i + 1:]
     return s
+
+
+# characters that a widened character class, a case-insensitive flag, a Unicode-aware \d / \w / isalnum, or a
+# str.format / % call on user text would treat differently from what Debian policy says
+FOREIGN = ['\u212a', '\u017f', '\u0130', '\u0131',        # fold to k, s, i under re.IGNORECASE
+           '\u0663', '\u0967', '\uff11', '\u00b2', '\u2460', '\u00bd',   # digits / numerics of other kinds
+           '\u00e9', '\u00df', '\u03b1', '\u0430', '\uff41', '\u00aa',   # letters: accented, greek, cyrillic, fullwidth, ordinal
+           '_', '/', '\\', '*', '?', '!', '#', '$', '%', '&', '=', '@', '^', '|', ',', ';', '"', "'", '`',
+           '(', ')', '[', ']', '{', '}', '<', '>',
+           '\u00a0', '\u200b', '\u2028', '\u0085', '\x0c', '\x00', '\u0301', '\ufeff', '\U0001f600']
+FORMAT_HAZARDS = ['{}', '{0}', '{1}', '{x}', '{0.a}', '{!r}', '{:d}', '{{', '}}', '%s', '%d', '%(a)s', '%', '%%', '\\1', '\\g<0>', '$x', '${x}']
+
+
+def foreign_sweep(contexts):
+    """every foreign character / format hazard at every marked position ('@') of every context"""
+    for ctx in contexts:
+        for x in FOREIGN + FORMAT_HAZARDS:
+            yield ctx.replace('@', x)
